@@ -264,6 +264,8 @@ fn run_with_ghidra(args: &CmdlineArgs) -> Result<(), Error> {
     // Execute the modules and collect their logs and CWE-warnings.
     let mut all_cwes = Vec::new();
     for module in modules {
+        #[cfg(fkie_cad_cwe_checker_verif)]
+        eprintln!("VERIF-RUN {}", module.name);
         let (mut logs, mut cwes) = (module.run)(&analysis_results, &config[&module.name]);
         all_logs.append(&mut logs);
         all_cwes.append(&mut cwes);
